@@ -32,7 +32,7 @@ use rustc_middle::ty::{self, EarlyBinder, GenericArgsRef, Instance, InstanceKind
 use rustc_span::Span;
 use std::collections::{BTreeMap, BTreeSet, HashMap, HashSet, VecDeque};
 
-const DRIVER_VERSION: &str = "nfsa-driver-9";
+const DRIVER_VERSION: &str = "nfsa-driver-10";
 
 struct Cb;
 
@@ -271,6 +271,7 @@ impl<'a, 'tcx> Cx<'a, 'tcx> {
                         o.push(("promoted_of", J::S(path_s(tcx, uv.def))));
                     } else {
                         o.push(("unevaluated", J::S(path_s(tcx, uv.def))));
+                        o.push(("uv_args", args_j(uv.args)));
                     }
                 }
                 let prim = matches!(
@@ -701,6 +702,45 @@ fn extract<'tcx>(tcx: TyCtxt<'tcx>) -> J {
         bodies.push((path, J::O(o)));
     }
 
+    // constant items (free, inherent and trait-impl associated consts): their CTFE bodies, so that enum-typed
+    // constants and `<T as Trait>::CONST` references can be resolved by the analyses
+    let mut consts: Vec<(String, J)> = Vec::new();
+    for ldid in tcx.hir_body_owners() {
+        let did = ldid.to_def_id();
+        let kind = tcx.def_kind(did);
+        if !matches!(kind, DefKind::Const { .. } | DefKind::AssocConst { .. }) {
+            continue;
+        }
+        if tcx.generics_of(did).count() != 0 && tcx.generics_of(did).own_params.len() != 0 {
+            continue;
+        }
+        let path = path_s(tcx, did);
+        let mut o = vec![("path", J::S(path.clone())), ("span", span_j(tcx, tcx.def_span(did)))];
+        if let Some(assoc) = tcx.opt_associated_item(did) {
+            o.push(("name", J::S(assoc.name().to_string())));
+            if let Some(imp) = assoc.impl_container(tcx) {
+                let self_ty = tcx.type_of(imp).instantiate_identity().skip_norm_wip();
+                o.push(("self_ty", J::S(ty_s(self_ty))));
+                if matches!(tcx.def_kind(imp), DefKind::Impl { of_trait: true }) {
+                    let tr = tcx.impl_trait_ref(imp).instantiate_identity().skip_norm_wip();
+                    o.push(("trait", J::S(path_s(tcx, tr.def_id))));
+                    if let Some(ti) = assoc.trait_item_def_id() {
+                        o.push(("trait_item", J::S(path_s(tcx, ti))));
+                    }
+                }
+            } else if let Some(tr) = assoc.trait_container(tcx) {
+                o.push(("in_trait", J::S(path_s(tcx, tr))));
+            }
+        }
+        let has_params = tcx.generics_of(did).count() != 0;
+        if !has_params {
+            let body = tcx.mir_for_ctfe(did);
+            let env = TypingEnv::post_analysis(tcx, did);
+            o.push(("mir", body_j(tcx, body, env, &mut ext)));
+        }
+        consts.push((path, J::O(o)));
+    }
+
     // ADTs, statics, impls
     let mut adts: Vec<(String, J)> = Vec::new();
     let mut statics: Vec<J> = Vec::new();
@@ -1021,6 +1061,7 @@ fn extract<'tcx>(tcx: TyCtxt<'tcx>) -> J {
         ("config", config),
         ("bodies", J::OD(bodies)),
         ("promoted", J::OD(promoted)),
+        ("consts", J::OD(consts)),
         ("adts", J::OD(adts)),
         ("statics", J::A(statics)),
         ("impls", J::A(impls)),
